@@ -157,6 +157,9 @@ def rule_pairing(ctx, rule="C05-pair"):
         for bb, t in b.calls():
             nme = callee_name(t)
             if nme in FORBIDDEN_CONSUMERS and t["arg_tys"] and "errors::reserve_error::ReserveError>" in t["arg_tys"][0]:
+                a0 = strip_refs(b.origin_operand(t["args"][0]))
+                if nme.endswith("::unwrap_or_default") and a0[0] == "call" and callee_name(b.term(a0[1])) in ("LeanString::try_with_capacity",):
+                    continue      # the pre-sizing hint: `try_with_capacity(hint).unwrap_or_default()` = Ok(buf) => buf, Err => new()
                 bad.append("%s in %s (line %s)" % (nme, path, t.get("line")))
     ctx.ob(rule, "crate", "no-foreign-unwrap-of-ReserveError", not bad, how="no Result<_, ReserveError> is consumed by unwrap/expect/unwrap_unchecked", detail="allocation failure is turned into a different panic / UB: %s" % bad[:3])
 
@@ -490,6 +493,14 @@ def rule_wrappers_delegate(ctx, rule="WRAP", only=None):
         sib = {"LeanString::" + w2 for w2, t2 in WRAPPERS.items() if t2 == tgt and w2 != w}
         ctx.ob(rule, fn, "must-pass:" + tgt, must_pass_call(b, {t} | sib), how="every path through %s passes %s" % (w, t),
                detail="%s can return without calling %s: on that path the operation's own guarantees (made exclusive, validated, grown by the rule) are skipped" % (fn, t))
+        if w in ("try_push", "try_insert"):
+            # the char is handed over as its own UTF-8 encoding (no hand-made byte for "small" chars)
+            from guards import inlined_sites as _is
+            tg = {t} | sib
+            for st in _is(b, lambda nm: nm in tg):
+                a = st.desc(len(st.t["args"]) - 1)
+                ctx.ob(rule, fn, "text=encode_utf8(ch):" + st.label(), re.match(r"^core::char::methods::<impl char>::encode_utf8\(p%d, " % b.arg_count, a) is not None, line=st.line,
+                       how="the text appended is ch.encode_utf8(..)", detail="%s hands %s to %s: not the UTF-8 encoding of the char it was given" % (fn, a[:160], st.name))
         if w in ("try_reserve", "try_shrink_to", "try_with_capacity", "try_truncate", "try_remove"):
             for st in inlined_sites(b, lambda nm: nm == t):
                 a = st.desc(len(st.t["args"]) - 1)
